@@ -138,7 +138,8 @@ def second (self : String) (t : Nat) (sid : Bytes) (holders : List String) (e : 
 /-- C11 on the implementation's observed behaviour, for an error `e` of unambiguous cause `k`: the decidable predicate
     `P11` of the model (theorem model_satisfies_p11) on the parsed observation -/
 def p11 (self : String) (t : Nat) (sid : Bytes) (holders : List String) (e : Err String) (k : Class String)
-    (retryable : Bool) (claimant : Option String) (arrivals : List String) (impl : String) (mode : String := "") : Bool :=
+    (retryable : Bool) (claimant : Option String) (arrivals : List String) (impl : String) (mode : String := "")
+    (wparams : String := "p1") : Bool :=
   if retryable && decide (self ∈ culprits k) then true else   -- outside model_satisfies_p11 (self_culprit_point)
   match parseSeen impl with
   | none => false
@@ -151,6 +152,8 @@ def p11 (self : String) (t : Nat) (sid : Bytes) (holders : List String) (e : Err
     let key := electionKey' sid self holders claimant arrivals
     let coordinates := decide (bullyElectedListed key self (nextCandidates holders (culprits k)) claimant = self)
     -- (ready targets: the same coordinator may be answered more than once when it initiates more than once)
+    -- a participant Run of the new attempt carries the params of the claimant's start message — nobody else's
+    (!o.wrun || field impl "run" == some ("w:" ++ wparams)) &&
     decide (P11 self holders t e k retryable coordinates claimant arrivals { o with readyTo := o.readyTo.eraseDups })
 
 def handle (op : String) (args : List String) (impl : String) : Option Verdict :=
@@ -253,7 +256,7 @@ def handle (op : String) (args : List String) (impl : String) : Option Verdict :
     -- the replacement start a claimant sends carries the real params [claimant, self]
     let m := showSeen o (match claimant with | some r => toks [r, self] | none => "p1")
     let ok := match intended e with
-      | some k => p11 self t sid holders e k true claimant ready2 impl
+      | some k => p11 self t sid holders e k true claimant ready2 impl "" (match claimant with | some r => toks [r, self] | none => "p1")
       | none => true
     return ⟨s!"run1={run1};" ++ m, ok, s!"real:{if c = self then "coordinator" else "participant"}:{first}:{tag}"⟩
   | _, _ => none
